@@ -229,3 +229,48 @@ Proof.
     try (match goal with |- context [h_rd e ?p 32] => destruct (h_rd e p 32) end);
     try (match goal with |- context [U32_MAX <? ?x] => destruct (U32_MAX <? x) end); cbn [run_plain]; eauto.
 Qed.
+
+(* ---------- SRWQ / SWWQ: full statements (see Properties/C33.v for their status) ---------- *)
+Definition srwq_addrs (va : N) (n : nat) : list N := map (fun j => sat64 (va + 32 * N.of_nat j)) (seq 0 n).
+Definition srwq_statement : Prop :=
+  forall (e : henv) (m : kvmap) (c b va vc vd : N) (kb : bytes),
+    h_ctx e = Some c -> h_rd e vc 32 = MOk kb -> REG_WRITABLE <= b ->
+    (forall a, In a (srwq_addrs va (N.to_nat vd)) -> h_wr e a 32 = None) ->
+    match spec_read_quads m c (be_decode kb) vd with
+    | SPanic r => run_plain (h_max_len e) (h_srwq e b va vc vd) m = (SPanic r, m, [])
+    | SOk (data, f) =>
+        exists mem, run_plain (h_max_len e) (h_srwq e b va vc vd) m =
+                      (SOk {| o_regs := [(b, f)]; o_err := None; o_mem := mem |}, m, [])
+                    /\ concat (map snd mem) = data /\ map fst mem = srwq_addrs va (N.to_nat vd)
+    end.
+Fixpoint chunk_writes (c k : N) (chunks : list bytes) : list wevent :=
+  match chunks with [] => [] | v :: r => WWrite c k v :: chunk_writes c (k + 1) r end.
+Definition swwq_statement : Prop :=
+  forall (e : henv) (m : kvmap) (c b va vc vd : N) (kb : bytes) (chunks : list bytes),
+    h_ctx e = Some c -> h_rd e va 32 = MOk kb -> REG_WRITABLE <= b -> lenN chunks = vd ->
+    (forall j, (j < length chunks)%nat -> h_rd e (sat64 (vc + 32 * N.of_nat j)) 32 = MOk (nth j chunks [])) ->
+    (forall ch, In ch chunks -> lenN ch = 32) ->
+    match spec_write_quads m c (be_decode kb) chunks (h_max_len e) with
+    | SPanic r => fst (fst (run_plain (h_max_len e) (h_swwq e b va vc vd) m)) = SPanic r
+    | SOk (m', f) =>
+        exists m2, run_plain (h_max_len e) (h_swwq e b va vc vd) m =
+                     (SOk (out_regs [(b, f)]), m2, chunk_writes c (be_decode kb) chunks) /\ kv_eq m2 m'
+    end.
+
+(* ---------- the hypotheses of the lemmas above are satisfiable ---------- *)
+Definition example_env : henv :=
+  {| h_ctx := Some 7; h_max_len := 64;
+     h_rd := fun a l => if a =? 100 then MOk (be_encode 32 5) else if a =? 200 then MOk (firstn (N.to_nat l) (repeat 9 40)) else MFault 4;
+     h_wr := fun a l => if a =? 300 then None else Some 7 |}.
+Definition example_map : kvmap := kv_set (kv_set kv_empty 7 5 (repeat 1 32)) 7 6 [1; 2; 3].
+Example example_srw : run_plain 64 (h_srw example_env 16 17 100 1) example_map = (SOk (out_regs [(16, 72340172838076673); (17, 1)]), example_map, []).
+Proof. vm_compute. reflexivity. Qed.
+Example example_srw_oob : fst (fst (run_plain 64 (h_srw example_env 16 17 100 4) example_map)) = SPanic KR_StorageOutOfBounds.
+Proof. vm_compute. reflexivity. Qed.
+Example example_scwq_overflow :
+  fst (fst (run_plain 64 (h_scwq {| h_ctx := Some 7; h_max_len := 64; h_rd := fun _ _ => MOk (repeat 255 32); h_wr := fun _ _ => None |} 17 100 2) example_map))
+  = SPanic KR_TooManySlots.
+Proof. vm_compute. reflexivity. Qed.
+Example example_swr_too_long : fst (fst (run_plain 64 (h_swrd example_env 100 200 40) example_map)) = SOk out0
+                               /\ fst (fst (run_plain 32 (h_swrd example_env 100 200 40) example_map)) = SPanic KR_StorageOutOfBounds.
+Proof. vm_compute. split; reflexivity. Qed.
